@@ -5,9 +5,9 @@ From DesVerif Require Import Life.Model.
 Import ListNotations.
 Open Scope N_scope.
 
-Ltac wsimpl := cbn [w_fes w_mod w_err w_cur w_buf set_fes set_mod set_err set_cur set_buf
-  active inc bud shut nw timers ready tfin catchf set_active set_bud set_shut set_nw set_timers set_ready
-  set_tfin set_catchf set_hnd hnd x_w x_log say say_all on_w fst snd] in *.
+Ltac wsimpl := cbn [w_fes w_mod w_err w_cur w_buf w_fin set_fin set_fes set_mod set_err set_cur set_buf
+  active inc bud shut nw timers ready hnd catchf set_active set_bud set_shut set_nw set_timers set_ready
+  set_hnd set_catchf set_hnd hnd x_w x_log say say_all on_w fst snd] in *.
 
 Lemma mod_same w m x : w_mod (set_mod w m x) m = x.
 Proof. cbn [w_mod set_mod]. rewrite N.eqb_refl. reflexivity. Qed.
@@ -57,7 +57,7 @@ Record FrP (m : N) (w w' : world) : Prop := {
   fp_fr : Fr m w w';
   fp_timers : timers (w_mod w' m) = timers (w_mod w m);
   fp_ready : ready (w_mod w' m) = ready (w_mod w m);
-  fp_tp : tfin (w_mod w' m) = tfin (w_mod w m) }.
+  fp_tp : hnd (w_mod w' m) = hnd (w_mod w m) }.
 
 Lemma FrP_refl m w : FrP m w w.
 Proof. constructor; [apply Fr_refl|reflexivity..]. Qed.
@@ -68,7 +68,7 @@ Proof. intros [a b c d] [a' b' c' d']. constructor; [eapply Fr_trans; eauto|cong
 (* updating a field of module m that the relation does not mention *)
 Lemma FrP_set m w x :
   active x = active (w_mod w m) -> inc x = inc (w_mod w m) -> nw x = nw (w_mod w m) ->
-  timers x = timers (w_mod w m) -> ready x = ready (w_mod w m) -> tfin x = tfin (w_mod w m) ->
+  timers x = timers (w_mod w m) -> ready x = ready (w_mod w m) -> hnd x = hnd (w_mod w m) ->
   FrP m w (set_mod w m x).
 Proof.
   intros. constructor; [constructor|..]; try reflexivity; rewrite ?mod_same; auto.
@@ -174,7 +174,7 @@ Qed.
 
 (* ---- tasks ---- *)
 Lemma end_task_Fr m how s tk : Fr m (x_w s) (x_w (end_task m how s tk)).
-Proof. unfold end_task. wsimpl. apply Fr_set; reflexivity. Qed.
+Proof. unfold end_task. wsimpl. constructor; try reflexivity. exists []. rewrite app_nil_r. split; [reflexivity|constructor]. Qed.
 
 Lemma end_task_LogExt m how s tk : (how =? 2) = false -> LogExt m s (end_task m how s tk).
 Proof.
